@@ -62,11 +62,15 @@ def run_case(case):
         else:
             r.fail('%s:%s:dim%d' % (what, mode, dim), msg)
 
+    rw = c01.ref_wavelet(case)
+    r.label('rescaled_filter_bank' if case.get('wave_form') == 'tuple' and case.get('fb_scale', [1.0, 1.0]) != [1.0, 1.0]
+            else None)
+
     def pywt_roundtrip(x):
         if dim == 1:
-            return dwtu.ref_waverec(*dwtu.ref_wavedec(x, w, mode, J), w, mode)
-        c = __import__('pywt').wavedec2(x, w, mode=mode, level=J, axes=(-2, -1))
-        return __import__('pywt').waverec2(c, w, mode=mode, axes=(-2, -1))
+            return dwtu.ref_waverec(*dwtu.ref_wavedec(x, rw, mode, J), rw, mode)
+        c = __import__('pywt').wavedec2(x, rw, mode=mode, level=J, axes=(-2, -1))
+        return __import__('pywt').waverec2(c, rw, mode=mode, axes=(-2, -1))
 
     ntot = int(np.prod(size))
     M, full = dwtu.basis_rows(ntot, case['k'], cap=dwtu.op_cap(dim, L))
